@@ -2,7 +2,8 @@
    WBXML encoder model (Proofs/EncWbxmlSize2.v), and the table facts it needs checked on the regenerated tables. *)
 From Coq Require Import List NArith PeanoNat Lia Bool.
 From Wbxml Require Import Model.TablesDefs Model.Conv Model.EncWbxml Model.EncWbxmlTables Model.XmlFront Model.ConvXml2Wbxml.
-From Wbxml Require Import Proofs.EncWbxmlSize Proofs.EncWbxmlSize2 Proofs.XmlFrontTree Proofs.ConvXml2WbxmlProofs.
+From Wbxml Require Import Model.Codec Model.Tables Gen.TablesData.
+From Wbxml Require Import Proofs.EncWbxmlSize Proofs.EncWbxmlSize2 Proofs.XmlFrontTree Proofs.XmlFrontNames Proofs.ConvXml2WbxmlProofs.
 Import ListNotations.
 Local Open Scope nat_scope.
 
@@ -57,4 +58,38 @@ Theorem xml2wbxml_linear_size main btbl expat fuel o doc out n :
 Proof.
   intros VO H. destruct (xml2wbxml_ok_inv main btbl expat fuel o doc out n H) as (t & T1 & T2 & T3 & _).
   exists t. split; [exact T1|]. split; [exact T2|]. intros NO. exact (encode_tree_size btbl o t out VO NO T3).
+Qed.
+
+(* ------------------------------------------------------------------ the names hypothesis discharged *)
+
+Definition nonempty_cstr (b : bytes) : bool := match cstr b with [] => false | _ => true end.
+Definition lang_names_okb (l : lang) : bool :=
+  forallb (fun r => nonempty_cstr (bs (t_name r))) (opt_list (l_tags l)) &&
+  forallb (fun r => nonempty_cstr (bs (a_name r))) (opt_list (l_attrs l)).
+
+Lemma nonempty_cstr_ok b : nonempty_cstr b = true -> name_ok b.
+Proof. unfold nonempty_cstr, name_ok. destruct (cstr b); [discriminate|discriminate]. Qed.
+
+Lemma lang_names_okb_ok l : lang_names_okb l = true -> lang_names_ok l.
+Proof.
+  unfold lang_names_okb, lang_names_ok. intros H. apply andb_true_iff in H. destruct H as [A B].
+  rewrite forallb_forall in A, B. split; apply Forall_forall; intros r I; apply nonempty_cstr_ok; auto.
+Qed.
+
+Lemma main_table_names_ok : Forall lang_names_ok main_table.
+Proof.
+  assert (H : forallb lang_names_okb main_table = true) by (vm_compute; reflexivity).
+  rewrite forallb_forall in H. apply Forall_forall. intros l I. apply lang_names_okb_ok. now apply H.
+Qed.
+
+(* with Expat's guarantee that element and attribute names are never empty, no hypothesis on the tree is left *)
+Theorem xml2wbxml_linear_size_expat main btbl expat fuel o doc out n :
+  Forall lang_names_ok main -> Forall lang_vals_ok btbl ->
+  (forall d, Forall ev_names_ok (fst (expat d))) ->
+  xml2wbxml main btbl expat fuel o doc = mk_res ST_OK (Some out) n ->
+  exists t, tree_from_xml_fuel main expat fuel doc = inl t /\
+            List.length out <= 33 * wsizes (hdr_max btbl) (xt_roots t) + hdr_max btbl.
+Proof.
+  intros MO VO EX H. destruct (xml2wbxml_linear_size main btbl expat fuel o doc out n VO H) as (t & T1 & _ & T3).
+  exists t. split; [exact T1|]. apply T3. exact (tree_from_xml_fuel_names main expat MO EX fuel doc t T1).
 Qed.
